@@ -183,6 +183,52 @@ def wrap(t):
     raise Unsupported("unexpected sort %s" % t.sort())
 
 
+_LIN_CACHE = {}
+
+
+def _is_linear(t):
+    """quantifier-free linear real/integer arithmetic over uninterpreted constants (no products of variables,
+    no division by a variable, no to_int, no floating point)"""
+    k = t.get_id()
+    hit = _LIN_CACHE.get(k)
+    if hit is not None and hit[0].eq(t):
+        return hit[1]
+    ok = True
+    stack = [t]
+    seen = set()
+    while stack and ok:
+        e = stack.pop()
+        i = e.get_id()
+        if i in seen:
+            continue
+        seen.add(i)
+        if len(seen) > 400:
+            ok = False
+            break
+        if not z3.is_app(e):
+            ok = False
+            break
+        kind = e.decl().kind()
+        ch = e.children()
+        if kind == z3.Z3_OP_MUL:
+            if sum(0 if z3.is_rational_value(c) or z3.is_int_value(c) else 1 for c in ch) > 1:
+                ok = False
+        elif kind in (z3.Z3_OP_DIV, z3.Z3_OP_IDIV, z3.Z3_OP_MOD, z3.Z3_OP_REM):
+            if not (z3.is_rational_value(ch[1]) or z3.is_int_value(ch[1])):
+                ok = False
+        elif kind in (z3.Z3_OP_POWER, z3.Z3_OP_TO_INT, z3.Z3_OP_IS_INT):
+            ok = False
+        elif kind == z3.Z3_OP_UNINTERPRETED and ch:
+            ok = False
+        elif z3.is_fp(e) or z3.is_bv(e):
+            ok = False
+        stack.extend(ch)
+    if len(_LIN_CACHE) > 20000:
+        _LIN_CACHE.clear()
+    _LIN_CACHE[k] = (t, ok)
+    return ok
+
+
 def _isreal(x):
     if isinstance(x, SReal):
         return True
@@ -1030,9 +1076,37 @@ class Ctx(object):
             return
         self.obligs.append((t, what))
 
+    def _linear_slice_unsat(self, extra):
+        """sound pruning: if the linear literals of the path condition alone contradict the new literal, the
+        branch is infeasible whatever the polynomial rest says (which the solver may not decide)"""
+        if extra is None or not _is_linear(extra):
+            return False
+        s = z3.Solver()
+        s.set("timeout", 500)
+        n = 0
+        for h in list(self.pc) + list(self.axioms):
+            if z3.is_and(h):
+                for c in h.children():
+                    if _is_linear(c):
+                        s.add(c)
+                        n += 1
+            elif _is_linear(h):
+                s.add(h)
+                n += 1
+        if not n:
+            return False
+        s.add(extra)
+        try:
+            return str(s.check()) == "unsat"
+        except z3.Z3Exception:
+            return False
+
     def _feas(self, extra=None):
         t0 = time.time()
         self.stats.feas_queries += 1
+        if self.axioms and extra is not None and self._linear_slice_unsat(extra):
+            self.stats.solver_s += time.time() - t0
+            return "unsat"
         if self.hints and self.axioms and getattr(self, "_incr_gave_up", 0) >= 1:
             # polynomial path conditions and sample points at hand: most side questions are
             # satisfiable, and a sample point shows that at once
